@@ -733,8 +733,9 @@ PlainView(m, probes) ==
 \* stretches to read as byte strings of their own, and - part of the input -
 \* where the referee gives no verdict on the RDATA (`und`: the executor
 \* still performs the call and reports "undecided" once the record's framing
-\* is read).  Expected: every route of both codecs gives the referee's view;
-\* under D_new_ptr_rule the new codec's message routes give the view of its
+\* is read).  Expected: every route of both codecs gives the referee's view
+\* (in `plain`, n and sk are what both codecs say, q and rn the new one's
+\* routes, ro the established one's); under D_new_ptr_rule the new codec's message routes give the view of its
 \* own pointer rule.
 CodecCase(m, starts, probes) ==
   LET v == CodecView(FALSE, m, starts)
@@ -745,10 +746,7 @@ CodecCase(m, starts, probes) ==
               rn |-> [i \in 1..Len(probes) |-> pv[i].rn.und],
               ro |-> [i \in 1..Len(probes) |-> pv[i].ro.und]]
   IN [in |-> [m |-> m, starts |-> starts, probes |-> probes, und |-> und],
-      exp |-> [old |-> v, new |-> v, agree |-> TRUE,
-               pold |-> [i \in 1..Len(probes) |-> [n |-> pv[i].n, sk |-> pv[i].sk, ro |-> pv[i].ro]],
-               pnew |-> [i \in 1..Len(probes) |->
-                           [n |-> pv[i].n, sk |-> pv[i].sk, q |-> pv[i].q, rn |-> pv[i].rn]]],
+      exp |-> [old |-> v, new |-> v, agree |-> TRUE, plain |-> pv],
       dev |-> IF vn # v THEN [D_new_ptr_rule |-> [new |-> vn, agree |-> FALSE]] ELSE [none |-> 0]]
 
 ---------------------------------------------------------------------------
